@@ -580,6 +580,9 @@ class CallsMixin:
         r.uninit = a.uninit
         r.nonneg = a.nonneg
         r.orth = self.orth_reshape(a, new)
+        if a.idx == 'arange' and a.dims is not None and len(a.dims) == 1 and \
+                sum(1 for d_ in new if d_ is None or d_.as_int() != 1) <= 1:
+            r.idx = 'arange'        # the same index range as a column / row
         if r.orth is not None and len(a.dims) == 1 and r.src is None:
             r.src = a.src           # the same spectrum, as a column / row
         r.lay = self.lay_reshape(a, new, order, node)
